@@ -375,6 +375,8 @@ def rule_wire(ctx):
     ctx.floor("C04.WIRE", "message kinds parsed with hostile attributes", n, 12)
 
 
+EXPLANATION = EXPLANATION + ' C04.REENTRANT also covers a peer that leaves and registers again from inside its delivery and a peer that sends a message of its own through the router from inside its delivery (both messages reach every peer exactly once).'
+
 RULES = [
     ("C04.WIRE", rule_wire, "a parsed message routes by the direction flags of its class, whatever attributes the element carries"),
     ("C04.DIR", rule_dir, "direction flags of every message class equal the INDI direction table"),
